@@ -38,7 +38,7 @@ META = {
     'level_note': 'history model in this module is trusted; rsync and the '
                   'filesystem are part of the trusted base',
     'design_ref': 'DESIGN.md §5 C48',
-    'budget': {'quick': 90, 'thorough': 900},
+    'budget': {'quick': 150, 'thorough': 900},
 }
 RULE = ('case = one history (list of operation descriptors); distinct by '
         'the executed operation list; non-trivial when it contains >= 3 '
@@ -64,13 +64,13 @@ ASSUMPTIONS = [
     'install of that history',
 ]
 MIN = {
-    'numbering_checks': 1200, 'runN_checks': 3000,
+    'numbering_checks': 800, 'runN_checks': 2000,
     'install_after_clean_latest': 150, 'install_after_clean_older': 50,
     'overwrite_attempts': 40, 'preexisting_run_dirs_compared': 2000,
-    'reinstall_ok': 150, 'clean_removed_run': 400,
+    'reinstall_ok': 120, 'clean_removed_run': 350,
 }
 CASE_TIMEOUT = 120
-NCASES = {'quick': 800, 'thorough': 10000}
+NCASES = {'quick': 480, 'thorough': 8000}
 
 
 def ncases(tier):
@@ -194,6 +194,7 @@ class WModel:
         self.cleaned = {}       # number -> (step, survivors at that time)
         self.runs = {}          # dirname -> {'num', 'roots', 'step'}
         self.latest = None      # dirname of most recent numbered install
+        self.wipe_step = 0      # last step at which no numbered run was left
         self.since_clean_latest = False
         self.since_clean_older = False
 
@@ -388,7 +389,7 @@ def run_case(ctx, i, rng):
                 why = (f'run{num} was cleaned at step '
                        f'{m.cleaned.get(num, ("?",))[0]}; surviving runs '
                        f'are run{survivors}')
-            elif survivors:
+            elif survivors and m.used[num] > m.wipe_step:
                 key = 'C48:number-reused-after-cleaning-latest-run'
                 why = (f'run{num} was cleaned at step '
                        f'{m.cleaned.get(num, ("?",))[0]} while '
@@ -397,8 +398,9 @@ def run_case(ctx, i, rng):
             else:
                 key = 'C48:number-reused-after-cleaning-all-runs'
                 why = (f'run{num} was cleaned at step '
-                       f'{m.cleaned.get(num, ("?",))[0]} and no numbered '
-                       'run survived')
+                       f'{m.cleaned.get(num, ("?",))[0]}; every numbered '
+                       f'run had been cleaned by step {m.wipe_step} and '
+                       'numbering started again from 1')
             fail(key,
                  f'install at step {step} created {m.name}/run{num}, a '
                  f'number already handed out at step {m.used[num]} ({why})',
@@ -412,7 +414,7 @@ def run_case(ctx, i, rng):
                  workflow=m.name, number=num)
         else:
             ctx.count('fresh_consecutive_number')
-        m.used.setdefault(num, step)
+        m.used[num] = step
         m.latest = d
         m.since_clean_latest = False
         m.since_clean_older = False
@@ -652,6 +654,8 @@ def run_case(ctx, i, rng):
                         ctx.count('clean_latest_numbered')
                         if not mm.numbered_existing():
                             ctx.count('clean_last_remaining_run')
+                    if not mm.numbered_existing():
+                        mm.wipe_step = step
                     else:
                         mm.since_clean_older = True
                         ctx.count('clean_older_numbered')
